@@ -382,11 +382,13 @@ class Harness(object):
         self.log = []
 
     # ------------------------------------------------------------------ construction helpers
+    protocol_version = 4
+
     def _construct(self, cl, FakeConn, RecLBP, Recon):
         with warnings.catch_warnings():
             warnings.simplefilter('ignore')
             return cl.Cluster(contact_points=[self.endpoints[0]], connection_class=FakeConn, load_balancing_policy=RecLBP(),
-                              reconnection_policy=Recon(), protocol_version=4, monitor_reporting_enabled=False,
+                              reconnection_policy=Recon(), protocol_version=self.protocol_version, monitor_reporting_enabled=False,
                               idle_heartbeat_interval=0, executor_threads=1)
 
     def new_session(self):
